@@ -52,11 +52,12 @@ def run(tier, seed):
         # what was computed for the same annotation under another frame size)
         rows.sort(key=lambda r: (json.dumps(r["ref"]), json.dumps(r["est"]), r["w"], r["full"], r["fs"]))
         nfs = len({r["fs"] for r in rows})
+        per_pair = len({(r["w"], r["full"], r["fs"]) for r in rows})      # rows of one (reference, estimate) pair are adjacent after the sort
         for k, r in enumerate(rows):
             if kind == "L" and ((k // nfs) + seed) % (3 if thorough else 6):
                 continue                       # labelled pairs: every 6th (quick) / 3rd (thorough) row is replayed; TLC checked them all
-            if not thorough and cfg == "MC_C17_T3" and ((k // nfs) + seed) % 3:
-                continue                       # the three-level model: every third row in the quick tier
+            if not thorough and cfg == "MC_C17_T3" and ((k // per_pair) + seed) % 3:
+                continue                       # the three-level model: every third PAIR of hierarchies (with all its windows / modes) in the quick tier
             ri, rl = hier(r["ref"])
             ei, el = hier(r["est"])
             fs = r["fs"] * U
